@@ -7,9 +7,10 @@ import (
 	rspb "helm.sh/helm/v4/pkg/release/v1"
 )
 
+// ordered so that a prefix (bound "nstatus") is already representative
 var allStatuses = []rspb.Status{
-	rspb.StatusUnknown, rspb.StatusDeployed, rspb.StatusUninstalled, rspb.StatusSuperseded, rspb.StatusFailed,
-	rspb.StatusUninstalling, rspb.StatusPendingInstall, rspb.StatusPendingUpgrade, rspb.StatusPendingRollback,
+	rspb.StatusDeployed, rspb.StatusSuperseded, rspb.StatusFailed, rspb.StatusPendingUpgrade,
+	rspb.StatusUninstalled, rspb.StatusUninstalling, rspb.StatusPendingInstall, rspb.StatusPendingRollback, rspb.StatusUnknown,
 }
 
 func ndStatus(name string) rspb.Status { return allStatuses[ndChoice(name, len(allStatuses))] }
